@@ -66,6 +66,29 @@ where
     }
 }
 
+impl<F: TryFuture> TryJoinAll<F> {
+    /// Takes the output buffer and drops the outputs collected so far.
+    ///
+    /// An output entry is init exactly when its future has completed with `Ok`, which is
+    /// when the corresponding slot in the queue is vacant - except for `failed`, the slot
+    /// of a future that completed with `Err` and therefore wrote no output.
+    fn release_outputs(&mut self, failed: Option<usize>) {
+        let mut output = core::mem::replace(&mut self.output, Vec::new().into_boxed_slice());
+        for (i, out) in output.iter_mut().enumerate() {
+            if Some(i) != failed && self.queue.tasks.get(i).is_none() {
+                // SAFETY: slot `i` is vacant and did not fail, so `output[i]` was written by `poll`
+                unsafe { out.assume_init_drop() };
+            }
+        }
+    }
+}
+
+impl<F: TryFuture> Drop for TryJoinAll<F> {
+    fn drop(&mut self) {
+        self.release_outputs(None);
+    }
+}
+
 impl<F: TryFuture> Future for TryJoinAll<F> {
     type Output = Result<Vec<F::Ok>, F::Err>;
 
@@ -75,7 +98,10 @@ impl<F: TryFuture> Future for TryJoinAll<F> {
                 Poll::Ready(Some((i, Ok(t)))) => {
                     self.output[i].write(t);
                 }
-                Poll::Ready(Some((_, Err(e)))) => {
+                Poll::Ready(Some((i, Err(e)))) => {
+                    // slot `i` is now vacant but has no output: the buffer can no longer
+                    // be completed, so give it up together with what was collected so far.
+                    self.release_outputs(Some(i));
                     break Poll::Ready(Err(e));
                 }
                 Poll::Ready(None) => {
